@@ -78,6 +78,63 @@ def relations(chk: core.Check, d):
     chk.sample({'module_declaration': {'Reservoir Depth': d['identical'].get('Reservoir Depth')}})
 
 
+def enforcement(chk: core.Check, d):
+    """the published bounds are the ones the reader enforces: for every identically-defined float / int parameter of the request schema the real
+    ReadParameter (on a deep copy of a live Parameter object) accepts the published minimum and maximum and rejects the next float / integer outside"""
+    import contextlib
+    import copy
+    import io
+    import logging
+    import math
+    from tools import extract
+    import geophires_x.Model  # noqa: F401
+    from geophires_x.Parameter import ParameterEntry, ReadParameter, floatParameter, intParameter
+
+    logging.disable(logging.CRITICAL)
+    rows = {r['name']: r for r in d['rows_gen']}
+    done = set()
+    for fam, settings in list(extract.FAMILIES):
+        try:
+            m = extract.instantiate_family(settings)
+        except Exception:
+            continue
+        for mod in [getattr(m, a, None) for a in extract.MODULES]:
+            if mod is None or not hasattr(mod, 'ParameterDict'):
+                continue
+            for key, p in mod.ParameterDict.items():
+                if not isinstance(p, (floatParameter, intParameter)) or p.Name in done or p.Name not in rows or p.Name not in d['identical']:
+                    continue
+                done.add(p.Name)
+                s = rows[p.Name]
+                mn, mx = extract._rat_of(s['min']), extract._rat_of(s['max'])
+                if mn is None or mx is None:
+                    continue
+                isint = isinstance(p, intParameter)
+                lo, hi = (int(mn), int(mx)) if isint else (float(mn), float(mx))
+                probes = [('min', lo, True), ('max', hi, True),
+                          ('below-min', lo - 1 if isint else math.nextafter(lo, -math.inf), False), ('above-max', hi + 1 if isint else math.nextafter(hi, math.inf), False)]
+                for tag, v, accept in probes:
+                    if v == p.DefaultValue or v == p.value or (isinstance(v, float) and not math.isfinite(v)):
+                        continue
+                    if isint and accept and v not in [int(getattr(a, 'int_value', getattr(a, 'value', a))) for a in p.AllowableRange]:
+                        continue
+                    q = copy.deepcopy(p)
+                    q.Provided, q.Valid = False, False
+                    try:
+                        with contextlib.redirect_stdout(io.StringIO()):
+                            ReadParameter(ParameterEntry(Name=p.Name, sValue=repr(v), Comment=''), q, m)
+                        got = True
+                    except ValueError:
+                        got = False
+                    except Exception:  # noqa
+                        continue
+                    chk.case(('enforced', p.Name, tag), True)
+                    chk.tag(f'enforced/{tag}/' + ('accepted' if got else 'rejected'))
+                    if got != accept:
+                        chk.fail(f'C19/bound-not-enforced/{p.Name}/{tag}', f"the schema publishes [{s['min']}, {s['max']}] for '{p.Name}' but the reader " +
+                                 (f'accepts {v!r}' if got else f'rejects {v!r}'), {'name': p.Name, 'probe': tag, 'value': repr(v), 'schema_min': s['min'], 'schema_max': s['max']})
+
+
 def run(chk: core.Check) -> int:
     from tools import extract
     ext = extract.main(['Schema'])
@@ -85,6 +142,7 @@ def run(chk: core.Check) -> int:
     chk.coverage['exhaustive'] = True
     clean = chk.prove(['GeoVerif.Properties.C19'])
     relations(chk, ext['Schema']['data'])
+    enforcement(chk, ext['Schema']['data'])
     chk.assumptions += ['"what the simulator enforces" = the live Parameter objects\' Min / Max / AllowableRange / DefaultValue / CurrentUnits (enforcement itself is C07)',
                         'names not defined identically in all sources declaring them are listed under coverage.not_identically_defined, as the property exempts them']
     chk.trusted += ['tools/extract.py (interning of strings, canonical JSON text per schema property)']
